@@ -537,13 +537,15 @@ func skipSpacesReader(r Reader) (Segment, int, bool) {
 		if line == nil {
 			return segment, chars, false
 		}
-		for i, c := range line {
+		for _, c := range line {
 			if util.IsSpace(c) {
 				chars++
 				r.Advance(1)
 				continue
 			}
-			return segment.WithStart(segment.Start + i + 1), chars, true
+			// the rest of the line, from the first non-space character
+			_, segment = r.Position()
+			return segment, chars, true
 		}
 	}
 }
